@@ -66,9 +66,9 @@ type c14Filter struct {
 	calls int
 }
 
-func (f *c14Filter) OnDestroy()                                                 {}
+func (f *c14Filter) OnDestroy()                                                {}
 func (f *c14Filter) SetReceiveFilterHandler(h api.StreamReceiverFilterHandler) { f.rh = h }
-func (f *c14Filter) SetSenderFilterHandler(h api.StreamSenderFilterHandler)     { f.sh = h }
+func (f *c14Filter) SetSenderFilterHandler(h api.StreamSenderFilterHandler)    { f.sh = h }
 
 func (f *c14Filter) log(kind, ret string) {
 	if r := c14Cur.run; r != nil {
